@@ -22,6 +22,9 @@ MUTATORS = {"append", "extend", "insert", "pop", "sort", "resize", "fill", "clea
             "setdefault", "put", "itemset", "partition", "shuffle"}
 
 
+ARG_MUTATORS = {"shuffle", "fill_diagonal", "copyto", "put", "place", "putmask"}
+
+
 def _own_nodes(fn):
     """Nodes of fn excluding the bodies of nested function definitions (lambdas included: their free locals are uses)."""
     todo = list(fn.body)
@@ -127,6 +130,13 @@ class Resolver:
                 for x in ast.walk(n.target):
                     if isinstance(x, ast.Name):
                         self.comp_names.add(x.id)
+            elif isinstance(n, ast.Call) and (n.func.attr if isinstance(n.func, ast.Attribute) else getattr(n.func, "id", None)) in ARG_MUTATORS \
+                    and n.args:
+                b = n.args[0]                       # rng.shuffle(x), fill_diagonal(x, v), copyto(x, y): first argument updated in place
+                while isinstance(b, (ast.Subscript, ast.Attribute)):
+                    b = b.value
+                if isinstance(b, ast.Name):
+                    self.impure.add(b.id)
             elif isinstance(n, ast.Call) and isinstance(n.func, ast.Attribute) and n.func.attr in MUTATORS:
                 b = n.func.value
                 while isinstance(b, (ast.Subscript, ast.Attribute)):
@@ -366,6 +376,10 @@ class Resolver:
         if isinstance(f, ast.Attribute) and isinstance(f.value, ast.Name) and f.value.id == self.selfname and self.ci is not None:
             c, fn = self.prog.find_method(self.ci, f.attr)
             return fn, True
+        if isinstance(f, ast.Name) and f.id in getattr(self.prog, "classes", {}):
+            c, fn = self.prog.find_method(self.prog.classes[f.id], "__init__")
+            if fn is not None:
+                return fn, True                       # constructor call: parameters after self
         if isinstance(f, ast.Name) and self.mi is not None:
             if f.id in self.mi.functions:
                 return self.mi.functions[f.id], False
